@@ -18,7 +18,7 @@ LEVEL = "model_checking"
 RULE = ("harnesses: H0 every leftover cache directory (installed files x stale temp copy x lock file x time stamp) then a "
         "load of each version; H1 two populators || one loader on an empty cache; H2 one populator crashed at every point, then loader, "
         "populator, loader; H3 populator || populator; H4 two CacheLock holders (time-out allowed to fire), H4c three holders; H5 refresh interval "
-        "x clock answers x torn time-stamp files; H6 network refresh (fake server) crashed at every point || loader.  Every "
+        "x clock answers x torn time-stamp files; H6 network refresh (fake server) crashed at every point || loader; H7 network refresh whose download is cut after k bytes (real url_to_file over a fake response).  Every "
         "execution with <= B deviations (preemption of a runnable process, lock time-out, crash) is run on the real functions; "
         "state = (directory contents, lock holder, per-process program point) reached after each step; transition = one "
         "interposed operation; non-trivial = execution with at least one deviation")
@@ -190,9 +190,10 @@ class TimeProxy:
 class ModelLock:
     """Stand-in for portalocker.Lock (see ASSUMPTIONS): nothing happens at construction."""
 
-    def __init__(self, filename, timeout=None, **kw):
+    def __init__(self, filename, timeout=None, fail_when_locked=False, **kw):
         self.filename = filename
         self.held = False
+        self.fail_when_locked = fail_when_locked      # portalocker: do not wait, fail at the first contended attempt
 
     def _key(self):
         x = CUR
@@ -206,6 +207,15 @@ class ModelLock:
             with open(self.filename, "a"):
                 pass
         self.key = self._key()
+        if self.fail_when_locked and CUR is not None:
+            pt("lock-try", self.key)
+            x = CUR
+            me = x.me()
+            if not x.lock_free(self.key, me.pid):
+                raise portalocker.exceptions.AlreadyLocked("model lock held (fail_when_locked)")
+            x.locks[self.key] = me.pid
+            self.held = True
+            return self
         mode = pt("lock-acquire", self.key)
         if mode == "timeout":
             raise portalocker.exceptions.AlreadyLocked("model lock time-out")
@@ -771,6 +781,89 @@ def h6(rec, world, shard, nshards, bound, version):
         world.extra_ok = {}
 
 
+class CutResponse:
+    """What urlopen gives back when the connection is lost after `cut` bytes of a body announced with Content-Length:
+    read() raises IncompleteRead, read(n) just comes back short and then empty (http.client semantics)."""
+
+    def __init__(self, data, cut):
+        self.data, self.cut, self.pos = data, cut, 0
+        self.headers = {"Content-Length": str(len(data))}
+
+    def read(self, n=-1):
+        import http.client
+        limit = len(self.data) if self.cut is None else self.cut
+        if n is None or n < 0:
+            chunk = self.data[self.pos:limit]
+            self.pos = limit
+            if self.cut is not None:
+                raise http.client.IncompleteRead(chunk, len(self.data) - limit)
+            return chunk
+        chunk = self.data[self.pos:min(limit, self.pos + n)]
+        self.pos += len(chunk)
+        return chunk
+
+    def getheader(self, name, default=None):
+        return self.headers.get(name, default)
+
+    def close(self):
+        pass
+
+    def __enter__(self):
+        return self
+
+    def __exit__(self, *a):
+        return False
+
+
+def h7(rec, world, version):
+    """Network refresh whose download is cut after k bytes, for every class of k (environment-answer deviation), run on the
+    real url_to_file: the cache keeps a complete file and the version still loads."""
+    import hed.schema.schema_io.schema_util as su
+    name = version_file(version)
+    new = world.bytes[name]
+    old = new + b"\n<!-- older cached copy -->\n"
+    base = "https://fake/standard_schema"
+    lib = "https://fake/library_schemas"
+    gitsha = hashlib.sha1(f"blob {len(new)}\0".encode() + new).hexdigest()
+    world.server = {("listing", base + "/hedxml"): [{"type": "file", "name": name, "sha": gitsha,
+                                                      "download_url": "https://fake/dl/" + name}],
+                    ("listing", lib): [],
+                    ("file", "https://fake/dl/" + name): new}
+    world.extra_ok = {name: [old]}
+    fake_url_to_file, real_request = world.hc.url_to_file, su.make_url_request
+    try:
+        world.hc.url_to_file = su.url_to_file
+        for cut in (None, 0, 1, len(new) // 2, len(new) - 1):
+            su.make_url_request = lambda url, *a, cut=cut, **kw: CutResponse(new, cut)
+            world.reset(initial={name: old})
+            world.clock["default"] = 1.8e9
+            rec.n("evaluations")
+            rec.n("transitions", 2)
+            if cut is not None:
+                rec.n("distinct_nontrivial")
+            try:
+                result = world.hc.cache_xml_versions(hed_base_urls=base, hed_library_urls=lib, cache_folder=world.cache)
+            except BaseException as e:
+                result = "raised:" + type(e).__name__
+            listing = world.cache_listing()
+            where = {"harness": "H7", "download_cut_after_bytes": cut, "of": len(new), "refresh_result": str(result)}
+            bad = torn_files(listing, world)
+            if bad:
+                rec.violation("C19:H7:torn-file-kept-under-final-name", files=bad, **where)
+            r = make_loader(version)()
+            if r[2] != "ok":
+                rec.violation(f"C19:H7:load-failed:{r[2]}", detail=r[3], **where)
+            if cut is None and listing.get(name) != new:
+                rec.violation("C19:H7:complete-download-not-installed", **where)
+            rec.outcome(f"H7:cut={'none' if cut is None else 'some'}:{str(result)[:24]}")
+            rec.state(("H7", cut is None, tuple(sorted((k, len(v)) for k, v in listing.items()))))
+    finally:
+        world.hc.url_to_file = fake_url_to_file
+        su.make_url_request = real_request
+        world.server = {}
+        world.extra_ok = {}
+
+
 def worker(rec, shard, nshards, scratch, files, bounds, thorough, seed):
     global WORLD
     WORLD = World(os.path.join(scratch, f"w{shard}"), files)
@@ -795,6 +888,8 @@ def worker(rec, shard, nshards, scratch, files, bounds, thorough, seed):
         h5(rec, WORLD)
     if shard == 1 % nshards:
         h0(rec, WORLD, versions)
+    if shard == 2 % nshards:
+        h7(rec, WORLD, versions[0])
     shutil.rmtree(WORLD.root, ignore_errors=True)
 
 
